@@ -1079,8 +1079,19 @@ STRATEGIES = {'framer': framer_strategy, 'client': client_strategy, 'tcp-truncat
 # run
 
 
+def preload():
+    """Import every cpppo module any engine uses *before* workers are forked.  Hypothesis (>= 6.13x) mixes constants
+    collected from the already imported non-library modules into its draws, so the cases generated for a seed would
+    otherwise depend on which job a pool worker happened to run before (measured: after a TCP or client job the
+    framer k-way shards drew different cases)."""
+    import cpppo                                                    # noqa: F401
+    from cpppo.server import network                                # noqa: F401
+    from cpppo.server.enip import parser, device, logix, ucmm, client, main   # noqa: F401
+
+
 def shard(job):
     kind, seed, idx, n, skey = job
+    preload()
     s = Stats()
     sd = common.shard_seed(seed, idx)
     if kind == 'framer':
@@ -1113,6 +1124,7 @@ def shard(job):
 
 def run(tier, seed):
     thorough = tier == 'thorough'
+    preload()
     jobs = []
     idx = [0]
 
